@@ -1539,6 +1539,7 @@ pub fn run(cfg: &Cfg) -> Report {
       );
     }
   }
+  mixed_family(&mut rep, cfg.seed, thorough, &mut scan_cases); // c19fix: mixed header shapes, box-drawing characters in cell texts
   // the scanner and the whole pipeline against the scanner model, on every text given to the recogniser
   let sreqs: Vec<String> = scan_cases.iter().map(|x| format!("(c19 scan {})", Sexp::str(&x.0))).collect();
   let sans = model.ask_batch(&sreqs);
@@ -1626,3 +1627,419 @@ fn evaluate_family(rep: &mut Report, rng: &mut Rng, t: &Tbl, dt: &DecisionTable,
     }
   }
 }
+
+// ================================================================================================
+// c19fix BEGIN — mixed header shapes and box-drawing characters inside cell texts
+//
+// Family `mixed`: allowed values drawn for the inputs only, for the outputs only, or for some
+// clauses, where the header cells WITHOUT allowed values SPAN the allowed-values lane (instead of
+// being continued by a blank cell, which is what the Lean `draw` produces).  The drawings are made
+// by the small grid drawer below (same junction table as `Dmn.Recog.junction`); the expectation —
+// the table that was drawn, with the raw padded texts of its cells — is written out here, not
+// taken from the model.  ImplVsSpec: `build(text)` = the drawn table, field by field, and the
+// recognised table evaluates like its XML twin.  Every text also goes to the scanner model.
+//
+// Family `boxchar`: a box-drawing character inside a cell text.  Outside the property (such a text
+// is not a drawing of the table: C19.json, assumptions); only totality (no panic) and the agreement
+// with the model are checked, the outcome classes are counted.
+
+struct MixGrid {
+  /// `[grid row][grid column]` → region id
+  key: Vec<Vec<usize>>,
+  /// logical text of every region
+  texts: Vec<String>,
+  /// boundaries drawn with double lines
+  vdbl: Vec<usize>,
+  hdbl: Vec<usize>,
+}
+
+fn mix_junction(up: bool, down: bool, left: bool, right: bool, vd: bool, hd: bool) -> Option<char> {
+  let pick = |both: char, v: char, h: char, none: char| if vd && hd { both } else if vd { v } else if hd { h } else { none };
+  Some(match (up, down, left, right) {
+    (false, false, false, false) => return None,
+    (true, true, false, false) | (true, false, false, false) | (false, true, false, false) => {
+      if vd {
+        '║'
+      } else {
+        '│'
+      }
+    }
+    (false, false, true, true) | (false, false, true, false) | (false, false, false, true) => {
+      if hd {
+        '═'
+      } else {
+        '─'
+      }
+    }
+    (false, true, false, true) => '┌',
+    (false, true, true, false) => '┐',
+    (true, false, false, true) => '└',
+    (true, false, true, false) => '┘',
+    (true, true, false, true) => pick('╠', '╟', '╞', '├'),
+    (true, true, true, false) => pick('╣', '╢', '╡', '┤'),
+    (false, true, true, true) => pick('╦', '╥', '╤', '┬'),
+    (true, false, true, true) => pick('╩', '╨', '╧', '┴'),
+    (true, true, true, true) => pick('╬', '╫', '╪', '┼'),
+  })
+}
+
+/// Draws the grid; returns the lines of the drawing and the raw (padded) text of every region, as
+/// `text_from_rect` cuts it out: the interior lines of the region joined with line breaks.
+fn mix_draw(rng: &mut Rng, g: &MixGrid, roomy: bool) -> (Vec<String>, Vec<String>) {
+  let nrows = g.key.len();
+  let ncols = g.key[0].len();
+  let nreg = g.texts.len();
+  // bounding boxes
+  let mut bb: Vec<Option<(usize, usize, usize, usize)>> = vec![None; nreg];
+  for r in 0..nrows {
+    for c in 0..ncols {
+      let k = g.key[r][c];
+      bb[k] = Some(match bb[k] {
+        None => (r, c, r, c),
+        Some((r0, c0, r1, c1)) => (r0.min(r), c0.min(c), r1.max(r), c1.max(c)),
+      });
+    }
+  }
+  let lines_of = |s: &str| -> Vec<Vec<char>> { s.split('\n').map(|l| l.chars().collect()).collect() };
+  let mut w = vec![1usize; ncols];
+  let mut h = vec![1usize; nrows];
+  for k in 0..nreg {
+    if let Some((r0, c0, r1, c1)) = bb[k] {
+      let ls = lines_of(&g.texts[k]);
+      let need_w = ls.iter().map(|l| l.len()).max().unwrap_or(0) + if roomy { rng.below(4) as usize } else { 0 };
+      let have_w: usize = (c0..=c1).map(|c| w[c]).sum::<usize>() + (c1 - c0);
+      if need_w > have_w {
+        w[c1] += need_w - have_w;
+      }
+      let need_h = ls.len() + if roomy && rng.chance(1, 4) { 1 } else { 0 };
+      let have_h: usize = (r0..=r1).map(|r| h[r]).sum::<usize>() + (r1 - r0);
+      if need_h > have_h {
+        h[r1] += need_h - have_h;
+      }
+    }
+  }
+  let mut xb = vec![0usize; ncols + 1];
+  for c in 0..ncols {
+    xb[c + 1] = xb[c] + w[c] + 1;
+  }
+  let mut yb = vec![0usize; nrows + 1];
+  for r in 0..nrows {
+    yb[r + 1] = yb[r] + h[r] + 1;
+  }
+  let mut canvas = vec![vec![' '; xb[ncols] + 1]; yb[nrows] + 1];
+  let vseg = |r: usize, bc: usize| bc == 0 || bc == ncols || g.key[r][bc - 1] != g.key[r][bc];
+  let hseg = |br: usize, c: usize| br == 0 || br == nrows || g.key[br - 1][c] != g.key[br][c];
+  for r in 0..nrows {
+    for bc in 0..=ncols {
+      if vseg(r, bc) {
+        for row in canvas.iter_mut().take(yb[r + 1]).skip(yb[r] + 1) {
+          row[xb[bc]] = if g.vdbl.contains(&bc) { '║' } else { '│' };
+        }
+      }
+    }
+  }
+  for br in 0..=nrows {
+    for c in 0..ncols {
+      if hseg(br, c) {
+        for x in xb[c] + 1..xb[c + 1] {
+          canvas[yb[br]][x] = if g.hdbl.contains(&br) { '═' } else { '─' };
+        }
+      }
+    }
+  }
+  for br in 0..=nrows {
+    for bc in 0..=ncols {
+      let up = br > 0 && vseg(br - 1, bc);
+      let down = br < nrows && vseg(br, bc);
+      let left = bc > 0 && hseg(br, bc - 1);
+      let right = bc < ncols && hseg(br, bc);
+      if let Some(ch) = mix_junction(up, down, left, right, g.vdbl.contains(&bc), g.hdbl.contains(&br)) {
+        canvas[yb[br]][xb[bc]] = ch;
+      }
+    }
+  }
+  let mut raw = vec![String::new(); nreg];
+  for k in 0..nreg {
+    if let Some((r0, c0, r1, c1)) = bb[k] {
+      let (x0, x1, y0, y1) = (xb[c0] + 1, xb[c1 + 1], yb[r0] + 1, yb[r1 + 1]);
+      let ls = lines_of(&g.texts[k]);
+      let top = rng.below((y1 - y0 - ls.len() + 1) as u64) as usize;
+      for (i, l) in ls.iter().enumerate() {
+        let left = rng.below((x1 - x0 - l.len() + 1) as u64) as usize;
+        for (j, ch) in l.iter().enumerate() {
+          canvas[y0 + top + i][x0 + left + j] = *ch;
+        }
+      }
+      raw[k] = (y0..y1).map(|y| canvas[y][x0..x1].iter().collect::<String>()).collect::<Vec<_>>().join("\n");
+    }
+  }
+  (canvas.iter().map(|l| l.iter().collect::<String>()).collect(), raw)
+}
+
+/// The header shapes of the family `mixed`: (name, several outputs, label lane, header lanes).
+const MIX_KINDS: [(&str, bool, bool, usize); 9] = [
+  ("input values beside the label over the component names", true, true, 2),
+  ("spanning inputs beside component names over output values", true, false, 2),
+  ("input values beside a spanning single output", false, false, 2),
+  ("spanning inputs beside a single output over its values", false, false, 2),
+  ("input values beside label and component names spanning the values lane", true, true, 3),
+  ("spanning inputs beside label, component names and output values", true, true, 3),
+  ("some clauses spanning the values lane (two lanes)", true, false, 2),
+  ("some clauses spanning the values lane (three lanes)", true, true, 3),
+  ("some inputs spanning the values lane, single output with values", false, false, 2),
+];
+
+struct MixRegs {
+  names: Vec<String>,
+  texts: Vec<String>,
+}
+
+impl MixRegs {
+  fn id(&mut self, name: String, text: &str) -> usize {
+    if let Some(i) = self.names.iter().position(|n| *n == name) {
+      return i;
+    }
+    self.names.push(name);
+    self.texts.push(text.to_string());
+    self.names.len() - 1
+  }
+}
+
+/// Draws `t` (logical texts; the clauses with `values == None` span the allowed-values lane) with
+/// `lanes` header lanes; returns the text of the drawing and the expected outcome of `build`.
+fn mix_drawing(rng: &mut Rng, t: &Tbl, lanes: usize, roomy: bool) -> (String, String) {
+  let (n, m, k, r) = (t.inputs.len(), t.outputs.len(), t.anns.len(), t.rules.len());
+  let label_lane = m > 1 && t.label.is_some();
+  let mut regs = MixRegs { names: vec![], texts: vec![] };
+  let npos = 1 + n + m + k;
+  let mut lane_keys: Vec<Vec<usize>> = vec![vec![0; npos]; lanes + r];
+  for (i, lane) in lane_keys.iter_mut().enumerate().take(lanes) {
+    let last = i + 1 == lanes;
+    lane[0] = regs.id("hp".into(), t.hp);
+    for j in 0..n {
+      lane[1 + j] = match (&t.inputs[j].1, last && lanes > 1) {
+        (Some(v), true) => regs.id(format!("inval{}", j), v),
+        _ => regs.id(format!("expr{}", j), &t.inputs[j].0),
+      };
+    }
+    for j in 0..m {
+      let vals = &t.outputs[j].1;
+      let has_values_lane = lanes == 2 + label_lane as usize;
+      lane[1 + n + j] = if m == 1 {
+        match (vals, last && has_values_lane) {
+          (Some(v), true) => regs.id("outval0".into(), v),
+          _ => regs.id("label".into(), t.label.as_deref().unwrap_or("")),
+        }
+      } else if label_lane && i == 0 {
+        regs.id("label".into(), t.label.as_deref().unwrap_or(""))
+      } else {
+        match (vals, last && has_values_lane) {
+          (Some(v), true) => regs.id(format!("outval{}", j), v),
+          _ => regs.id(format!("comp{}", j), t.outputs[j].0.as_deref().unwrap_or("")),
+        }
+      };
+    }
+    for j in 0..k {
+      lane[1 + n + m + j] = regs.id(format!("ann{}", j), &t.anns[j]);
+    }
+  }
+  for i in 0..r {
+    let lane = &mut lane_keys[lanes + i];
+    lane[0] = regs.id(format!("rule{}", i), &(i + 1).to_string());
+    for j in 0..n {
+      lane[1 + j] = regs.id(format!("ine{}_{}", i, j), &t.rules[i].0[j]);
+    }
+    for j in 0..m {
+      lane[1 + n + j] = regs.id(format!("oute{}_{}", i, j), &t.rules[i].1[j]);
+    }
+    for j in 0..k {
+      lane[1 + n + m + j] = regs.id(format!("anne{}_{}", i, j), &t.rules[i].2[j]);
+    }
+  }
+  let grid = if t.orient == "rows" {
+    let mut vdbl = vec![1 + n];
+    if k > 0 {
+      vdbl.push(1 + n + m);
+    }
+    MixGrid { key: lane_keys, texts: regs.texts.clone(), vdbl, hdbl: vec![lanes] }
+  } else {
+    // rules as columns: positions become grid rows (the hit policy / rule number position last)
+    let key: Vec<Vec<usize>> = (0..npos).map(|row| (0..lanes + r).map(|col| lane_keys[col][if row == npos - 1 { 0 } else { row + 1 }]).collect()).collect();
+    let mut hdbl = vec![n];
+    if k > 0 {
+      hdbl.push(n + m);
+    }
+    MixGrid { key, texts: regs.texts.clone(), vdbl: vec![lanes], hdbl }
+  };
+  let (lines, raw) = mix_draw(rng, &grid, roomy);
+  let get = |regs: &MixRegs, name: String| -> String { regs.names.iter().position(|x| *x == name).map(|i| raw[i].clone()).unwrap_or_default() };
+  let inputs: Vec<(String, Option<String>)> = (0..n).map(|j| (get(&regs, format!("expr{}", j)), t.inputs[j].1.as_ref().map(|_| get(&regs, format!("inval{}", j))))).collect();
+  let outputs: Vec<(Option<String>, Option<String>)> =
+    (0..m).map(|j| (if m > 1 { Some(get(&regs, format!("comp{}", j))) } else { None }, t.outputs[j].1.as_ref().map(|_| get(&regs, format!("outval{}", j))))).collect();
+  let label = t.label.as_ref().map(|_| get(&regs, "label".into()));
+  let anns: Vec<String> = (0..k).map(|j| get(&regs, format!("ann{}", j))).collect();
+  let rules: Vec<(Vec<String>, Vec<String>, Vec<String>)> = (0..r)
+    .map(|i| {
+      (
+        (0..n).map(|j| get(&regs, format!("ine{}_{}", i, j))).collect(),
+        (0..m).map(|j| get(&regs, format!("oute{}_{}", i, j))).collect(),
+        (0..k).map(|j| get(&regs, format!("anne{}_{}", i, j))).collect(),
+      )
+    })
+    .collect();
+  let expected = Sexp::list(vec![Sexp::atom("ok"), spec_sexp(t.orient, t.hp, &None, &inputs, &outputs, &label, &anns, &rules)]).to_string();
+  let mut text = String::new();
+  for l in &lines {
+    text.push_str(l);
+    text.push('\n');
+  }
+  (text, expected)
+}
+
+/// A table for the mixed header shape `kind` (logical, evaluable texts).
+fn mix_table(rng: &mut Rng, kind: usize, orient: &'static str, hp: &'static str) -> (Tbl, usize) {
+  let (_, several, label, lanes) = MIX_KINDS[kind];
+  let sh = Shape {
+    orient,
+    n: 1 + rng.below(3) as usize,
+    m: if several { 2 + rng.below(2) as usize } else { 1 },
+    k: rng.below(3) as usize,
+    r: 1 + rng.below(4) as usize,
+    hp,
+    name: false,
+    values: true,
+    label,
+    split: false,
+    quirks: false,
+    blank_values: 0,
+    merge: false,
+  };
+  let multi = rng.chance(1, 3);
+  let mut t = gen_table(rng, &sh, true, multi);
+  let (n, m) = (t.inputs.len(), t.outputs.len());
+  // which clauses keep their allowed values
+  let mut keep_in = vec![true; n];
+  let mut keep_out = vec![true; m];
+  match kind {
+    0 | 2 | 4 => keep_out = vec![false; m],
+    1 | 3 | 5 => keep_in = vec![false; n],
+    _ => {
+      for x in keep_in.iter_mut() {
+        *x = rng.chance(1, 2);
+      }
+      if kind != 8 {
+        for x in keep_out.iter_mut() {
+          *x = rng.chance(1, 2);
+        }
+      }
+      // at least one clause with allowed values (the lane exists) and one without (something spans)
+      if !keep_in.iter().any(|x| *x) && !keep_out.iter().any(|x| *x) {
+        keep_out[m - 1] = true;
+      }
+      if keep_in.iter().all(|x| *x) && keep_out.iter().all(|x| *x) {
+        keep_in[0] = false;
+      }
+    }
+  }
+  if matches!(kind, 0 | 2 | 4) && rng.chance(1, 3) && n > 1 {
+    // some of the inputs without allowed values, too
+    keep_in[rng.below(n as u64) as usize] = false;
+    if !keep_in.iter().any(|x| *x) {
+      keep_in[0] = true;
+    }
+  }
+  if matches!(kind, 1 | 5) && rng.chance(1, 3) {
+    keep_out[rng.below(m as u64) as usize] = false;
+    if !keep_out.iter().any(|x| *x) {
+      keep_out[0] = true;
+    }
+  }
+  for j in 0..n {
+    if !keep_in[j] {
+      t.inputs[j].1 = None;
+    }
+  }
+  for j in 0..m {
+    if !keep_out[j] {
+      t.outputs[j].1 = None;
+    }
+  }
+  (t, lanes)
+}
+
+fn mixed_family(rep: &mut Report, seed: u64, thorough: bool, scan_cases: &mut Vec<(String, ScanObs, String)>) {
+  let mut rng = Rng::new(seed ^ 0x19f1_c19f);
+  let per_kind = if thorough { 400 } else { 40 };
+  for kind in 0..MIX_KINDS.len() {
+    for i in 0..per_kind {
+      let orient = if i % 2 == 0 { "rows" } else { "cols" };
+      let hp = MARKERS[(i / 2 + kind) % MARKERS.len()];
+      let (t, lanes) = mix_table(&mut rng, kind, orient, hp);
+      let (text, expected) = mix_drawing(&mut rng, &t, lanes, i % 3 != 0);
+      rep.case(&text, true);
+      rep.hit(&format!("mixed-header:{}", MIX_KINDS[kind].0));
+      let obs = run_impl(&text);
+      let got = impl_outcome(&obs);
+      scan_cases.push((text.clone(), scan_obs(&obs), got.clone()));
+      if let Some((site, msg)) = &obs.panic {
+        rep.disagree(Kind::ImplVsSpec, "total", &panic_signature(site, msg), &text, &format!("panic at {}: {}", site, msg), "Ok or Err");
+        continue;
+      }
+      if got != expected {
+        let what = match &obs.built {
+          Err(m) => format!("rejected: {}", err_name(m)),
+          Ok(_) => {
+            let names = ["", "", "orientation", "hit policy", "information item name", "input clauses", "output clauses", "output label", "annotations", "rules"];
+            let g = Sexp::parse(&got).and_then(|s| s.as_list().and_then(|l| l.get(1).and_then(|x| x.as_list().map(|v| v.to_vec())))).unwrap_or_default();
+            let e = Sexp::parse(&expected).and_then(|s| s.as_list().and_then(|l| l.get(1).and_then(|x| x.as_list().map(|v| v.to_vec())))).unwrap_or_default();
+            let mut which = "table";
+            for i in 1..9 {
+              if g.get(i) != e.get(i) {
+                which = names[i + 1];
+                break;
+              }
+            }
+            format!("recognised {} differ from the drawn ones", which)
+          }
+        };
+        rep.disagree(Kind::ImplVsSpec, "mixed", &format!("mixed header ({}): {} ({})", MIX_KINDS[kind].0, what, orient), &text, &got, &expected);
+      } else {
+        rep.hit("mixed-header:recognised-as-drawn");
+      }
+      if let Ok(dt) = &obs.built {
+        evaluate_family(rep, &mut rng, &t, dt, &text);
+      }
+    }
+  }
+  // box-drawing characters inside a cell text (outside the property; totality and model agreement only)
+  for (ci, ch) in ['│', '─', '║', '═', '┼', '╬', '┌', '┘'].iter().enumerate() {
+    for i in 0..(if thorough { 40 } else { 6 }) {
+      let orient = if i % 2 == 0 { "rows" } else { "cols" };
+      let sh = Shape { orient, n: 1 + rng.below(2) as usize, m: 1 + rng.below(2) as usize, k: rng.below(2) as usize, r: 1 + rng.below(3) as usize, hp: MARKERS[(i + ci) % MARKERS.len()], name: false, values: false, label: true, split: false, quirks: false, blank_values: 0, merge: false };
+      let mut t = gen_table(&mut rng, &sh, true, false);
+      let ri = rng.below(t.rules.len() as u64) as usize;
+      let ji = rng.below(t.inputs.len() as u64) as usize;
+      t.rules[ri].0[ji] = format!("\"B{}C\"", ch);
+      let lanes = 1 + (t.outputs.len() > 1) as usize;
+      let (text, expected) = mix_drawing(&mut rng, &t, lanes, true);
+      rep.case(&text, true);
+      let obs = run_impl(&text);
+      let got = impl_outcome(&obs);
+      scan_cases.push((text.clone(), scan_obs(&obs), got.clone()));
+      if let Some((site, msg)) = &obs.panic {
+        rep.disagree(Kind::ImplVsSpec, "total", &panic_signature(site, msg), &text, &format!("panic at {}: {}", site, msg), "Ok or Err");
+        continue;
+      }
+      let class = if got == expected {
+        "read-as-text"
+      } else if obs.built.is_ok() {
+        "read-as-line:another-table"
+      } else {
+        "read-as-line:error"
+      };
+      rep.hit(&format!("boxchar-in-cell:{}:{}", ch, class));
+    }
+  }
+}
+// c19fix END
+// ================================================================================================
